@@ -37,6 +37,9 @@ CLAIMED = {
  "C17": ("exploration", "deterministic simulation: exhaustive request matrix per world under seeded stalls; handshakes racing Server.Close; session-store linearizability (porcupine, set model); plus labelled enumeration of id generation",
          "A raw HTTP peer sends the full matrix (6 methods x 5 EIO values x 4 transports x 4 sid kinds x b64 x j = 1920 requests, shuffled per world) to a real eio server holding one live and one closed session: requests with defects get HTTP 400 + a JSON error whose code is one of the defects present, create no session, leave the live session working (probed every 64 requests); requests without defect are served. closerace: 2-12 polling/WebSocket handshakes at instants around Server.Close with stalls on the store and server paths - afterwards every created session is closed, old sids answer no poll, new handshakes are refused. churn: concurrent open/close/probe histories checked for linearizability against a set, sids unique among live sessions. Side run (input enumeration): 2x10^5 (thorough 10^6) GenerateBase64ID calls distinct.",
          "§7 C17", TB),
+ "C18": ("exploration", "deterministic simulation: seeded handler-registration programs against a set-valued reference model; occurrences racing Once/On/Off under stalls on the store mutex",
+         "Public API only (Namespace.OnEvent/OnceEvent/OffEvent/OffAll fired by OnServerSideEmit; Server.OnNewNamespace/OnceNewNamespace/OffNewNamespace fired by creating namespaces). Sequential programs of 4-40 operations over 3 events and 6 distinct function literals (same handler twice, several removed in one call, absent handlers, Off without handler, OffAll): after every occurrence the multiset of handlers entered must be one the registrations allow (set-valued after Off of a doubly registered handler); no call may panic. Race mode: 2-6 tasks fire one event while others register Once/On and remove, with stalls on store.go: a Once registration runs at most once, an On handler registered before runs for every occurrence.",
+         "§7 C18", TB),
  "C19": ("exploration", "deterministic simulation: seeded yield-point stalls at lock boundaries + timer alignment; latency oracle; porcupine FIFO check",
          "Seeded search over interleavings of pollers/sender goroutine and producers on the real pollQueue/packetQueue (and full stack), with stalls injected exactly between emptiness check and wait; hand-off latency above the overlapping injected stalls is a lost wake-up.",
          "§7 C19", TB),
